@@ -1,4 +1,5 @@
-(* C15 — witnesses of genuine defects of the pinned tree, reproduced by the faithful model *)
+(* C15 — witnesses of genuine defects of the tree, reproduced by the faithful model.
+   (The witness for unexported, unattached modules is gone: repaired by 68acea7, see C15_init_once_acyclic.) *)
 From Coq Require Import List Arith Bool.
 Import ListNotations.
 Require Import FV.C15.Model.
@@ -10,24 +11,6 @@ Definition pinata (atts : list att) (scan : list name) : decl :=
   {| d_kind := KPinata scan; d_tag := 0; d_export := false; d_atts := atts; d_poll := true; d_writes := [];
      d_fail_early := false; d_fail_init := false; d_hang := false |}.
 Definition to (t : name) : att := {| a_target := Some t; a_mand := true; a_want := None; a_phase := PInit |}.
-
-(* finding C15/unexported-unattached-never-initialised: no attachment at all, no error, the node reports ready,
-   but module 0 (export = False, a configured start value) was started and shut down without earlyInit, initModule
-   and without its start value being written *)
-Definition cfg_unexported : cfg :=
-  {| c_static := [(0, plain false [] [0]); (1, plain true [] [])]; c_dyn := [] |}.
-
-Theorem C15_refuted_unexported_never_initialised :
-  exists c sched order,
-    let st := lifecycle 40 2000 c sched order in
-    errors st = [] /\ In (EReady true) (trace st) /\
-    In (EStart 0) (trace st) /\ In (EShutdown 0) (trace st) /\
-    ~ In (EEarly 0) (trace st) /\ ~ In (EInit 0) (trace st) /\ ~ In (EWrite 0 0) (trace st) /\
-    In (EEarly 1) (trace st).
-Proof.
-  exists cfg_unexported, [SMain; SMain; SThread 1; SThread 1; SThread 1; SThread 1; SMain], [0; 1].
-  vm_compute. repeat split; auto 20; intros H; repeat (destruct H as [H|H]; [discriminate|]); exact H.
-Qed.
 
 (* finding C15/pinata-created-through-attachment-not-scanned: the same two Pinata modules in both declaration
    orders; module 5 found by Pinata 1 exists only if Pinata 1 is declared before Pinata 0 that attaches it *)
